@@ -50,9 +50,16 @@ func pkgPathOf(fn *ssa.Function) string {
 	return ""
 }
 
+var dynamicIntrinsics []func(fn *ssa.Function, name string) externalFn
+
 func intrinsicFor(fn *ssa.Function, name string) externalFn {
 	if e, ok := externals[name]; ok {
 		return e
+	}
+	for _, d := range dynamicIntrinsics {
+		if e := d(fn, name); e != nil {
+			return e
+		}
 	}
 	pp := pkgPathOf(fn)
 	if strings.HasSuffix(pp, "/zzverifrt") {
@@ -302,6 +309,8 @@ func init() {
 		"bytes.Compare":                        extCompare,
 		"internal/race.Enabled":                nil,
 
+		"internal/abi.NoEscape": func(fr *frame, a []value) value { return a[0] },
+		"internal/abi.Escape":   nil,
 		// ---- runtime ----
 		"runtime.GOMAXPROCS":                        func(fr *frame, a []value) value { return fr.i.mkInt(types.Int, 16) },
 		"runtime.NumCPU":                            func(fr *frame, a []value) value { return fr.i.mkInt(types.Int, 16) },
@@ -314,6 +323,17 @@ func init() {
 		"internal/godebug.(*Setting).IncNonDefault": func(fr *frame, a []value) value { return nil },
 
 		// ---- time ----
+		"time.runtimeNano": func(fr *frame, a []value) value { return fr.i.mkInt(types.Int64, 1000) },
+		"time.runtimeNow": func(fr *frame, a []value) value {
+			return tuple{fr.i.mkInt(types.Int64, 1790000000), fr.i.mkInt(types.Int32, 0), fr.i.mkInt(types.Int64, 1000)}
+		},
+		"time.now": func(fr *frame, a []value) value {
+			return tuple{fr.i.mkInt(types.Int64, 1790000000), fr.i.mkInt(types.Int32, 0), fr.i.mkInt(types.Int64, 1000)}
+		},
+		"runtime.GOROOT": func(fr *frame, a []value) value { return "" },
+		"syscall.Getenv": func(fr *frame, a []value) value { return tuple{"", fr.i.mkBool(false)} },
+		"os.Getenv":      func(fr *frame, a []value) value { return "" },
+		"os.LookupEnv":   func(fr *frame, a []value) value { return tuple{"", fr.i.mkBool(false)} },
 		"time.Now": func(fr *frame, a []value) value {
 			i := fr.i
 			i.clock++
@@ -335,31 +355,13 @@ func init() {
 			var v value = &native{v: re, desc: "regexp"}
 			return &v
 		},
-		"(*regexp.Regexp).FindStringSubmatch": func(fr *frame, a []value) value {
-			i := fr.i
-			re := (*a[0].(*value)).(*native).v.(*regexp.Regexp)
-			s, ok := concreteString(a[1])
-			if !ok {
-				i.unsupported("regexp match on a symbolic string")
+		"regexp.Compile": func(fr *frame, a []value) value {
+			re, err := regexp.Compile(fr.i.argStr(a[0], "regexp"))
+			if err != nil {
+				return tuple{(*value)(nil), fr.i.newErrorString(err.Error())}
 			}
-			m := re.FindStringSubmatch(s)
-			if m == nil {
-				return []value(nil)
-			}
-			r := make([]value, len(m))
-			for j := range m {
-				r[j] = m[j]
-			}
-			return r
-		},
-		"(*regexp.Regexp).MatchString": func(fr *frame, a []value) value {
-			i := fr.i
-			re := (*a[0].(*value)).(*native).v.(*regexp.Regexp)
-			s, ok := concreteString(a[1])
-			if !ok {
-				i.unsupported("regexp match on a symbolic string")
-			}
-			return i.mkBool(re.MatchString(s))
+			var v value = &native{v: re, desc: "regexp"}
+			return tuple{&v, iface{}}
 		},
 
 		// ---- pure string helpers called natively when concrete ----
@@ -403,6 +405,7 @@ func init() {
 		},
 	}
 	delete(externals, "internal/race.Enabled")
+	delete(externals, "internal/abi.Escape")
 }
 
 // fallThrough marker: intrinsics that only apply to concrete arguments return this to run the real body.
